@@ -140,16 +140,20 @@ def _zdt_fes_post(c):
     f, off = zdt_odt(c.new, res)
     tz_off, _ = c.mod.field(ZDT, 'mTimeZone')
     copied = [a == b for a, b in zip(tz_bytes(c.new, c.ex.ptr_add(res, tz_off)), tz_bytes(c.old, tz))]
-    o = _offset_from_log(c)
     out = [('time-zone-copied-byte-%d' % k, e) for k, e in enumerate(copied)]
     out += [('sentinel-gives-error', z3.Implies(s == MIN32, odt_is_error(f, off)))]
-    if o is not None:
-        ok = z3.And(in_range(s, o), o != ERR_OFF)
-        out += [('offset-is-the-zone-offset-at-that-instant', z3.Implies(s != MIN32, off == o)),
-                ('valid-fields', z3.Implies(ok, ldt_valid(f))),
-                ('fields-are-utc-fields-shifted-by-offset', z3.Implies(ok, ldt_seconds64(f) == sx(s, 64) + 60 * sx(o, 64)))]
-    else:
-        out.append(('asked-the-zone', s == MIN32))
+    # stated over the offset stored in the result, so that the clauses mean the same at a call site (convertToTimeZone) as at the
+    # function's own exit; that this offset is the one the zone reported is the first clause below, proved at the own exit only
+    # (it speaks about the call to TimeZone::getUtcOffset made during this call)
+    ok = z3.And(s != MIN32, in_range(s, off), off != ERR_OFF)
+    out += [('valid-fields', z3.Implies(ok, ldt_valid(f))),
+            ('fields-are-utc-fields-shifted-by-offset', z3.Implies(ok, ldt_seconds64(f) == sx(s, 64) + 60 * sx(off, 64)))]
+    if c.own:
+        o = _offset_from_log(c)
+        if o is not None:
+            out.append(('offset-is-the-zone-offset-at-that-instant', z3.Implies(s != MIN32, off == o)))
+        else:
+            out.append(('asked-the-zone', s == MIN32))
     return out
 
 
@@ -197,15 +201,13 @@ def _zdt_convert_post(c):
     f, off = zdt_odt(c.old, this)
     g, off2 = zdt_odt(c.new, res)
     inst = instant_of(f, off)
-    o = _offset_from_log_nested(c)
-    out = []
-    if o is not None:
-        ok = z3.And(z3.Not(odt_is_error(f, off)), in_range(inst, o), o != ERR_OFF)
-        out += [('valid-fields', z3.Implies(ok, ldt_valid(g))),
-                ('same-instant', z3.Implies(ok, instant_of(g, off2) == inst))]
-    else:
-        out.append(('converted-through-the-instant', z3.BoolVal(False)))
-    return out
+    # o: the offset of the target zone at that instant, as stored in the result (ZonedDateTime::forEpochSeconds' contract)
+    o = off2
+    ok = z3.And(z3.Not(odt_is_error(f, off)), in_range(inst, o), o != ERR_OFF)
+    # same form as OffsetDateTime::convertToTimeOffset: the local seconds of the result minus its offset are the instant (that
+    # toEpochSeconds() of the result then returns it is the lemma 'ZonedDateTime: convertToTimeZone preserves the instant')
+    return [('valid-fields', z3.Implies(ok, ldt_valid(g))),
+            ('same-instant', z3.Implies(ok, ldt_seconds64(g) - 60 * sx(off2, 64) == sx(inst, 64)))]
 
 
 def _offset_from_log_nested(c):
@@ -284,15 +286,36 @@ def zoned_round_trip(ex):
     cz = REGS['ace_time::ZonedDateTime::forEpochSeconds(int, ace_time::TimeZone const&)']
     cx = Ctx(ex, None, [res, s, tz], MemView(ex, {}, mem0), new=MemView(ex, {}, mem1))
     cx.ghost = {}
-    cx.log = [('call', 'ace_time::TimeZone::getUtcOffset(int) const', [tz, s], o)]
-    post = [e for _, e in cz.ensures(cx)]
+    cx.log = []
+    post = [e for _, e in cz.ensures(cx)]        # the clauses a caller sees (own=False): stated over the offset stored in the result
     back = z3.BitVec('lm_back', 32)
     _, p2 = instantiate(ex, 'ace_time::ZonedDateTime::toEpochSeconds() const', [res], mem_old=mem1, result=back)
     f, off = zdt_odt(MemView(ex, {}, mem1), res)
+    o = off     # that this is the offset the zone reported is forEpochSeconds' own-exit clause offset-is-the-zone-offset-at-that-instant
     nerr = z3.Implies(ldt_valid(f), z3.Not(ldt_is_error(f)))
     T = z3.BitVec('lm_T', 64)
     out.append(LemmaOb('ZonedDateTime: forEpochSeconds(s, tz).toEpochSeconds() == s for any zone whose offset o keeps s + 60 o in range',
                        post + p2 + [in_range(s, o), o != ERR_OFF, nerr], back == s, abstract=[(ldt_seconds64(f), T)]))
+    # conversion to another zone keeps the instant: convertToTimeZone's contract, then toEpochSeconds of the result
+    this = Ptr(None, z3.BitVec('lm_zthis', 64))
+    tz2 = Ptr(None, z3.BitVec('lm_tz2', 64))
+    res2 = Ptr(None, z3.BitVec('lm_res2', 64))
+    memA, memB = z3.Const('lm_memA', ex.mem_sort), z3.Const('lm_memB', ex.mem_sort)
+    cc = REGS['ace_time::ZonedDateTime::convertToTimeZone(ace_time::TimeZone const&) const']
+    cv = Ctx(ex, None, [res2, this, tz2], MemView(ex, {}, memA), new=MemView(ex, {}, memB))
+    cv.ghost = {}
+    cv.log = []
+    pconv = [e for _, e in cc.ensures(cv)]
+    fa, offa = zdt_odt(MemView(ex, {}, memA), this)
+    gb, offb = zdt_odt(MemView(ex, {}, memB), res2)
+    before, after = z3.BitVec('lm_before', 32), z3.BitVec('lm_after', 32)
+    _, q1 = instantiate(ex, 'ace_time::ZonedDateTime::toEpochSeconds() const', [this], mem_old=memA, result=before)
+    _, q2 = instantiate(ex, 'ace_time::ZonedDateTime::toEpochSeconds() const', [res2], mem_old=memB, result=after)
+    nerr_b = z3.Implies(ldt_valid(gb), z3.Not(ldt_is_error(gb)))
+    Ta, Tb = z3.BitVec('lm_Ta', 64), z3.BitVec('lm_Tb', 64)
+    out.append(LemmaOb('ZonedDateTime: convertToTimeZone preserves the instant',
+                       pconv + q1 + q2 + [z3.Not(odt_is_error(fa, offa)), in_range(before, offb), offb != ERR_OFF, nerr_b], after == before,
+                       abstract=[(ldt_seconds64(fa), Ta), (ldt_seconds64(gb), Tb)]))
     ub = z3.BitVec('lm_ub', 32)
     _, p3 = instantiate(ex, 'ace_time::ZonedDateTime::toUnixSeconds() const', [res], mem_old=mem1, result=ub)
     out.append(LemmaOb('ZonedDateTime: toUnixSeconds == toEpochSeconds + 946684800',
